@@ -251,3 +251,20 @@ contract(BS + "BacktrackSolver.solve", variant="enum", types={"self": SELF_T}, r
     ])},
     ensures=[("C02.all_delivered", f"implies(sol() and {IN_STACK0}, seen)")],
     tags={"C02": ["C02"], "wf": ["C16"], "C01": ["C02"], "C17": ["C02"]}, arities=[], timeout_ms=200000)
+
+
+def h_put_enum(ex, st, node, args):
+    """the worker side: a queued solution is a delivery (same obligation as at the yield of solve); the final marker is not"""
+    h_put(ex, st, node, args)
+    if args[0][1] is not None:
+        now = truth(ex.eval_spec(DELIVERED_NOW, st, {}))
+        ex.oblige(st, "assert", "C02.at_most_once", ex.eval_spec(f"implies({DELIVERED_NOW}, not seen)", st, {}), tags={"C02"}, line=node.lineno)
+        st.env["seen"] = b_or(truth(st.env["seen"]), now)
+
+
+_se = REG.contracts[BS + "BacktrackSolver.solve#enum"]
+contract(BS + "BacktrackSolver.solve_and_queue", variant="enum", types={"self": SELF_T, "processor_idx": "int", "solution_queue": "opaque"}, result="none", props=["C02"],
+    requires=SOE_REQ, env={"solution_queue.put": h_put_enum}, ghost=_se.ghost, ghost_init={"emitted": "emptylist", "seen": False, "lv": "@lv0"},
+    calls=_se.calls, call_ghosts=_se.extra["call_ghosts"], ghost_out=_se.extra["ghost_out"],
+    loops={1: dict(_se.loops[1], also_modifies=["emitted", "seen", "lv"])},
+    ensures=list(_se.ensures), tags=_se.tags, arities=[], timeout_ms=200000)
